@@ -121,10 +121,13 @@ Theorem write_segment_data_auto g seg_start bound : forall idxs ms w,
     (forall j, ~ In j idxs -> nth_optN (ws_secs w') j = nth_optN (ws_secs w) j) /\
     lenN (ws_secs w') = lenN (ws_secs w) /\
     ws_pos w' = mend (ws_secs w') idxs (ws_pos w) /\
-    (Forall (fun s => sh_size s <> 0) ms -> forall i, In i idxs -> exists s, nth_optN (ws_secs w') i = Some s /\ placed_member s).
+    (Forall (fun s => sh_size s <> 0) ms -> forall i, In i idxs -> exists s, nth_optN (ws_secs w') i = Some s /\ placed_member s) /\
+    Forall2 (fun i s => exists a o, nth_optN (ws_secs w') i = Some (with_offset (with_addr s a) o)) idxs ms.
 Proof.
   induction idxs as [|i t IH]; intros ms w Hnd HF Hauto Hcls Hgen Hb64 Hpos Hmem Hbud.
-  - inversion HF; subst. cbn [write_segment_data mchain mbudget fold_right mend]. exists w. repeat split; auto; try lia. intros _ i [].
+  - inversion HF; subst. cbn [write_segment_data mchain mbudget fold_right mend]. exists w.
+    split; [reflexivity|]. split; [exact Hpos|]. split; [exact Hmem|]. split; [lia|]. split; [lia|]. split; [lia|].
+    split; [auto|]. split; [reflexivity|]. split; [reflexivity|]. split; [intros _ i []|constructor].
   - inversion HF as [|? sec ? mt Hsec HFt]; subst. inversion Hauto as [|? ? Ha Hat]; subst.
     inversion Hcls as [|? ? Hc Hct]; subst. inversion Hnd as [|? ? Hni Hndt]; subst.
     cbn [mbudget fold_right] in Hbud. fold (mbudget mt) in Hbud.
@@ -137,7 +140,7 @@ Proof.
     set (sec' := with_offset (with_addr sec (p_vaddr g + ws_pos w + pad - seg_start)) off) in *.
     set (w1 := mkW (updN (ws_secs w) i sec') (gen_set (ws_gen w) i) (off + sh_size sec) (ws_mem w + (sh_size sec + pad)) (ws_fsz w + (sh_size sec + pad))).
     assert (Hi_lt : i < lenN (ws_secs w)) by (now apply nth_optN_lt in Hsec).
-    destruct (IH mt w1 Hndt) as (w' & -> & P1 & P2 & P3 & P4 & P5 & P6 & P7 & P8 & P9).
+    destruct (IH mt w1 Hndt) as (w' & -> & P1 & P2 & P3 & P4 & P5 & P6 & P7 & P8 & P9 & P10).
     + (* the remaining members are still where they were *)
       clear - HFt Hni. revert Hni. induction HFt as [|j s jt st Hj Hrest IHF]; intros Hni; constructor.
       * cbn [ws_secs w1]. rewrite nth_optN_updN_other; [exact Hj|]. intro; subst; apply Hni; now left.
@@ -163,7 +166,7 @@ Proof.
       * split; [rewrite P7; cbn [ws_secs w1]; apply lenN_updN|].
         assert (Hfin : nth_optN (ws_secs w') i = Some sec').
         { rewrite (P6 i Hni). cbn [ws_secs w1]. now apply nth_optN_updN_same. }
-        split.
+        split; [|split].
         -- cbn [mend]. rewrite Hfin, Eo, Ez. exact P8.
         -- intros Hnz j [<-|Hj].
            ++ exists sec'. split; [exact Hfin|]. inversion Hnz as [|? ? Hz1 Hz2]; subst.
@@ -172,6 +175,7 @@ Proof.
               cbn [s_index sh_type s_addr_set sh_size sh_flags s_cls with_offset with_addr].
               repeat split; try assumption; try reflexivity. unfold off. lia.
            ++ inversion Hnz as [|? ? Hz1 Hz2]; subst. exact (P9 Hz2 j Hj).
+        -- constructor; [eexists _, _; exact Hfin|exact P10].
 Qed.
 
 (* ---------- where the segment starts: file offset congruent to the address ---------- *)
@@ -228,11 +232,13 @@ Theorem layout_one_segment_auto h g secs gen pos bound ms :
     p_filesz g' = pos' - seg_start /\ p_filesz g' <= p_memsz g' /\
     mchain g seg_start secs' idxs seg_start pos' /\               (* members: aligned, in order, file distance = memory distance *)
     (forall j, ~ In j idxs -> nth_optN secs' j = nth_optN secs j) /\ lenN secs' = lenN secs /\
-    (g_sections g' = g_sections g /\ g_offset_set g' = true /\ p_align g' = p_align g /\ p_type g' = p_type g /\ g_cls g' = g_cls g) /\
+    (g_sections g' = g_sections g /\ g_offset_set g' = true /\ p_align g' = p_align g /\ p_type g' = p_type g /\ g_cls g' = g_cls g /\
+     g_index g' = g_index g /\ p_flags g' = p_flags g /\ p_paddr g' = p_paddr g) /\
     pos' = mend secs' idxs seg_start /\
     (Forall (fun s => sh_size s <> 0) ms -> forall i, In i idxs -> exists s, nth_optN secs' i = Some s /\ placed_member s) /\
     seg_start = add64 pos ((add64 (p_align g) (sub64 (p_vaddr g mod align) (pos mod align))) mod align) /\
-    pos' <= seg_start + mbudget ms.
+    pos' <= seg_start + mbudget ms /\
+    Forall2 (fun i s => exists a o, nth_optN secs' i = Some (with_offset (with_addr s a) o)) idxs ms.
 Proof.
   cbv zeta. intros Hlen Hne Hos Hty Hnd HF Hauto Hcls Hgen Hb64 Hbg Hal Hbud.
   set (align := if 0 <? p_align g then p_align g else 1) in *.
@@ -257,7 +263,7 @@ Proof.
   set (seg_start := add64 pos (add64 (p_align g) (sub64 (p_vaddr g mod align) (pos mod align)) mod align)) in *.
   cbn [bind].
   destruct (write_segment_data_auto g seg_start bound (i0 :: t0) ms (mkW secs gen seg_start 0 0) Hnd HF Hauto Hcls Hgen Hb64)
-    as (w' & -> & P1 & P2 & P3 & P4 & P5 & P6 & P7 & P8 & P9); [cbn; lia|reflexivity|cbn [ws_pos]; lia|].
+    as (w' & -> & P1 & P2 & P3 & P4 & P5 & P6 & P7 & P8 & P9 & P10); [cbn; lia|reflexivity|cbn [ws_pos]; lia|].
   cbn [bind ws_pos ws_secs] in *.
   assert (Hdef : seg_start = add64 pos ((add64 (p_align g) (sub64 (p_vaddr g mod align) (pos mod align))) mod align)) by reflexivity.
   clearbody seg_start.
@@ -267,11 +273,11 @@ Proof.
   destruct (N.ltb_spec (p_memsz (seg_set g GFilesz (ws_fsz w'))) (ws_mem w')) as [Hlt|Hge].
   - eexists _, _, _, _, seg_start. split; [reflexivity|].
     split; [exact S1|]. split; [exact S2|]. split; [exact S3|].
-    cbn [p_offset p_vaddr p_filesz p_memsz seg_set g_cls g_sections g_offset_set p_align p_type].
+    cbn [p_offset p_vaddr p_filesz p_memsz seg_set g_cls g_sections g_offset_set p_align p_type g_index p_flags p_paddr].
     rewrite !W by lia. repeat split; try lia; try assumption; try reflexivity.
   - eexists _, _, _, _, seg_start. split; [reflexivity|].
     split; [exact S1|]. split; [exact S2|]. split; [exact S3|].
-    cbn [p_offset p_vaddr p_filesz p_memsz seg_set g_cls g_sections g_offset_set p_align p_type] in *.
+    cbn [p_offset p_vaddr p_filesz p_memsz seg_set g_cls g_sections g_offset_set p_align p_type g_index p_flags p_paddr] in *.
     rewrite !W in * by lia. repeat split; try lia; try assumption; try reflexivity.
 Qed.
 
@@ -408,7 +414,7 @@ Theorem layout_one_segment_again h g secs gen pos bound ms g' secs' gen' pos' :
 Proof.
   cbv zeta. intros Hlen Hne Hos Hty Hnd HF Hauto Hcls Hnz Hgen Hb63 Hbg Hal Hbud Hpos E.
   destruct (layout_one_segment_auto h g secs gen pos bound ms Hlen Hne Hos Hty Hnd HF Hauto Hcls Hgen ltac:(lia) Hbg Hal Hbud)
-    as (g1 & secs1 & gen1 & pos1 & seg_start & E1 & S1 & S2 & S3 & O1 & V1 & F1 & M1 & Ch & Fr & Ln & (G1 & G2 & G3 & G4 & G5) & Pe & Pl & Hdef & Hpb).
+    as (g1 & secs1 & gen1 & pos1 & seg_start & E1 & S1 & S2 & S3 & O1 & V1 & F1 & M1 & Ch & Fr & Ln & (G1 & G2 & G3 & G4 & G5 & _) & Pe & Pl & Hdef & Hpb).
   cbv zeta in *. rewrite E in E1. injection E1 as <- <- <- <-.
   set (align := if 0 <? p_align g then p_align g else 1) in *.
   unfold layout_one_segment.
